@@ -20,10 +20,38 @@ one() {
     verdict=$(echo "$log" | grep -E -o "^(VIOLATION|HELD|INCONCLUSIVE)" | head -1)
     key=$(echo "$log" | grep -o "key=[^ ]*" | grep -v "key=.*known" | head -1)
     if echo "$log" | grep -q "^VIOLATION"; then verdict=VIOLATION; key=$(echo "$log" | grep -A1 "^VIOLATION" | grep -o "key=[^ ]*" | head -1); fi
-    printf "%s\t%s\t%s\t%s\n" "$kind" "$name" "${verdict:-NONE}" "$key" >> $out.tmp
+    by=""
+    printf "%s\t%s\t%s\t%s\t%s\n" "$kind" "$name" "${verdict:-NONE}" "$key" "$by" >> $out.tmp
   done
   mv $out.tmp $out
   echo "swept $id: $(grep -c VIOLATION $out)/$(wc -l < $out) caught"
 }
 export -f one
 printf "%s\n" "${ids[@]}" | xargs -P ${SWEEP_JOBS:-5} -I{} bash -c 'one {}'
+# second pass, sequential (two checks of one property must not run at the same time): a seeded change that its own
+# property's check does not catch may fall under another property's workload; meta.json names that check
+python3 - "${ids[@]}" <<'PY'
+import json, re, subprocess, sys
+for pid in sys.argv[1:]:
+    path = "sweeps/%s.tsv" % pid
+    rows = [l.rstrip("\n").split("\t") for l in open(path)]
+    changed = False
+    for r in rows:
+        r += [""] * (5 - len(r))
+        if r[0] != "seed" or r[2] == "VIOLATION":
+            continue
+        try:
+            m = re.match(r"(C\d\d) ", json.load(open("seeded/%s/meta.json" % r[1])).get("check_result", ""))
+        except Exception:
+            m = None
+        if not m or m.group(1) == pid:
+            continue
+        out = subprocess.run(["./check", m.group(1), "--no-evidence", "--mutant", "seeded/%s/patch.diff" % r[1]], capture_output=True, text=True).stdout
+        if re.search(r"^VIOLATION", out, re.M):
+            k = re.search(r"key=\S+", out)
+            r[3], r[4] = (k.group(0) if k else ""), m.group(1)
+            changed = True
+            print("swept %s: %s caught by %s" % (pid, r[1], m.group(1)))
+    if changed:
+        open(path, "w").write("".join("\t".join(r) + "\n" for r in rows))
+PY
